@@ -35,6 +35,14 @@ func main() {
 		churnChild()
 		return
 	}
+	if len(os.Args) > 1 && os.Args[1] == "updateschild" {
+		updatesChild()
+		return
+	}
+	if len(os.Args) > 1 && os.Args[1] == "lastsecondchild" {
+		lastSecondChild()
+		return
+	}
 	a := lib.ParseArgs()
 	log.SetOutput(ioutil.Discard)
 	res := lib.NewResult("C14", a.Seed, a.Tier)
@@ -52,6 +60,14 @@ func main() {
 			runFlood(res)
 		case "churn":
 			runChurn(res)
+		case "updates":
+			if c := runUpdates(res); c != nil {
+				cases = append(cases, *c)
+			}
+		case "lastsecond":
+			if c := runLastSecond(res); c != nil {
+				cases = append(cases, *c)
+			}
 		case "published":
 			// the published client is observed over a fresh set of histories
 			w := startWorld(res, &cases)
@@ -153,6 +169,30 @@ func main() {
 				}
 				cwg.Wait()
 			}
+			// then, side by side: a viewer asking for updates in bursts, and last-second joins
+			var cwg sync.WaitGroup
+			for _, f := range []func(*lib.Result) *Case{runUpdates, runLastSecond} {
+				cwg.Add(1)
+				go func(f func(*lib.Result) *Case) {
+					defer cwg.Done()
+					one := lib.NewResult("C14", a.Seed, a.Tier)
+					c := f(one)
+					if c != nil {
+						idx := w.addCase(*c)
+						for i := range one.Violations {
+							one.Violations[i].Case = idx
+						}
+					}
+					cmu.Lock()
+					defer cmu.Unlock()
+					churnRes.Violations = append(churnRes.Violations, one.Violations...)
+					churnRes.Notes = append(churnRes.Notes, one.Notes...)
+					for k, v := range one.Distribution {
+						churnRes.CountN(k, v)
+					}
+				}(f)
+			}
+			cwg.Wait()
 			close(churnDone)
 		}()
 		runHistories(a, rng.Fork(), w)
@@ -187,6 +227,8 @@ func main() {
 			coq[i] = runFps(c, i, res)
 		case "hist":
 			coq[i] = runHistCase(c)
+		case "rate":
+			coq[i] = runRateCase(c)
 		default:
 			fmt.Fprintln(os.Stderr, "unknown case kind", c.Kind)
 			os.Exit(2)
